@@ -26,8 +26,10 @@ Definition ops_initial (c : opscase) : element := new_element (fst (oc_root c)) 
 Definition final_state (c : opscase) : element := last (oc_states c) (ops_initial c).
 Definition ev_ops_states (c : opscase) : bool :=
   states_go (ops_initial c) (oc_ops c) (oc_states c) (oc_removed c).
+(* as for ev_bytes: renderings are compared for trees whose names lie in Sigma *)
 Definition ev_ops_bytes (c : opscase) : bool :=
-  forallb (fun '(o, h, _) => (hash63 (to_serde_struct o (final_state c)) =? h)%uint63) (oc_renders c).
+  negb (tree_in_sigma (final_state c))
+  || forallb (fun '(o, h, _) => (hash63 (to_serde_struct o (final_state c)) =? h)%uint63) (oc_renders c).
 Definition show_ops (c : opscase) :=
   (run_ops (ops_initial c) (oc_ops c),
    map (fun '(o, h, _) => (show (to_serde_struct o (final_state c)), hash63 (to_serde_struct o (final_state c)), h)) (oc_renders c)).
